@@ -64,6 +64,15 @@ theorem C09_gen_lock :
     Pyro.Gen.C09.tableUsers = ["server.py:5", "socketutil.py:2"] ∧
     Pyro.Gen.C09.getInstanceCallers = ["handleRequest: self._getInstance(obj, conn)"] := by decide
 
+/-- **C09_gen_daemon.**  Every `Daemon` object gets a table and a lock of its own: `__init__` assigns a fresh
+    dict / a fresh lock to the instance, and neither name exists as a class attribute (which all daemons of
+    the process would share).  This is what makes m daemons m independent copies of the model. -/
+theorem C09_gen_daemon :
+    Pyro.Gen.C09.daemonInitTables =
+      ["self._pyroInstances = {}", "self.create_single_instance_lock = threading.Lock()"] ∧
+    Pyro.Gen.C09.daemonClassLevelTables = [] :=
+  ⟨rfl, rfl⟩
+
 /-- **C09_gen_conn.**  A connection starts with an empty session table, `close` returns early only for
     `keep_open` and otherwise replaces the table by an empty one, and nothing else in `socketutil`
     writes it. -/
